@@ -182,7 +182,7 @@ CALC_TOUCH = {
     "xsld_table": ["xray", "emission"], "volume": ["covalent_radius"], "activation": ["activation"],
     "emission_table": ["emission"], "mff": ["magnetic_ff"], "mass": [],
     "refraction": ["xray"], "composite": ["neutron"], "d2o_sld": ["neutron"], "fasta_seq": ["neutron"],
-    "formula_methods": ["neutron", "xray"], "show_table": ["activation"], "iadd": [], "new_isotope": [],
+    "formula_methods": ["neutron", "xray"], "show_table": ["activation"], "iadd": [], "new_isotope": [], "cromermann": [],
 }
 
 
